@@ -21,6 +21,8 @@ type Emission struct {
 	Stores  map[string][]ssa.Value // every value stored into the field (reassignments after the literal)
 	Lit     *ssa.Alloc             // the literal's cell, if any
 	Lifted  *ssa.Function          // non-nil: the event is built by this helper; Call is the call of the helper in Fn
+	TypeV   ssa.Value              // the value naming the event type (an operand of newEvent, or what a lifting helper was handed for it)
+	Env     env                    // lifted emissions: the helpers' parameters bound to the arguments at Call (for fields computed inside the helper)
 	Ordinal map[string]int         // per event type: 1-based ordinal within Fn in source order
 }
 
@@ -42,6 +44,7 @@ func (c *Ctx) emissions() []*Emission {
 			}
 			em := &Emission{Fn: fn, Call: cv, Fields: map[string]ssa.Value{}, Stores: map[string][]ssa.Value{}, Ordinal: map[string]int{}}
 			em.Types = c.constStrings(cv.Call.Args[0], 0, map[ssa.Value]bool{})
+			em.TypeV = cv.Call.Args[0]
 			if len(cv.Call.Args) >= 3 {
 				em.decodePayload(cv.Call.Args[2])
 			}
@@ -121,7 +124,15 @@ func (c *Ctx) emissions() []*Emission {
 			if !ok {
 				continue
 			}
-			le := &Emission{Fn: cs.Fn, Call: cv, Types: em.Types, Payload: em.Payload, Fields: map[string]ssa.Value{}, Stores: map[string][]ssa.Value{}, Ordinal: map[string]int{}, Lifted: h}
+			le := &Emission{Fn: cs.Fn, Call: cv, Types: em.Types, Payload: em.Payload, Fields: map[string]ssa.Value{}, Stores: map[string][]ssa.Value{}, Ordinal: map[string]int{}, Lifted: h, Env: env{}}
+			for k, v := range em.Env {
+				le.Env[k] = v
+			}
+			for i, prm := range h.Params {
+				if i < len(cv.Call.Args) {
+					le.Env[prm] = cv.Call.Args[i]
+				}
+			}
 			sub := func(v ssa.Value) ssa.Value {
 				if prm, ok := resolve(v).(*ssa.Parameter); ok && prm.Parent() == h {
 					if i := paramIndex(prm); i < len(cv.Call.Args) {
@@ -129,6 +140,13 @@ func (c *Ctx) emissions() []*Emission {
 					}
 				}
 				return v
+			}
+			// a constructor handed the event type (newDependsEvent(eventType, from, to)): each call site emits what it passes
+			if em.TypeV != nil {
+				le.TypeV = sub(em.TypeV)
+				if le.TypeV != em.TypeV {
+					le.Types = c.constStrings(le.TypeV, 0, map[ssa.Value]bool{})
+				}
 			}
 			for k, v := range em.Fields {
 				le.Fields[k] = sub(v)
